@@ -376,7 +376,7 @@ func run(c *runner.Ctx) {
 	for i0, c0 := range cts {
 		for _, m0 := range marks {
 			for i1, c1 := range cts {
-				if !c.Thorough() && (i0+i1)%3 != 0 {
+				if !c.Thorough() && (i0+i1)%2 != 0 {
 					continue
 				}
 				for _, m1 := range marks {
@@ -426,7 +426,7 @@ func run(c *runner.Ctx) {
 			}
 			menu := map[reflect.Type][]dv{mid: midMenu}
 			for oi, oc := range containers(mid) {
-				if !c.Thorough() && (ii+oi)%2 != 0 {
+				if ii+oi < 0 {
 					continue
 				}
 				oms := marks[:2]
